@@ -252,8 +252,80 @@ def run_batch(jobs, want=()):
     return out
 
 
+_EMBOSSC = None
+
+
+def _embossc_main():
+    global _EMBOSSC
+    if _EMBOSSC is None:
+        import importlib.machinery
+        import importlib.util
+        loader = importlib.machinery.SourceFileLoader("embossc_driver", os.path.join(REPO, "embossc"))
+        spec = importlib.util.spec_from_loader("embossc_driver", loader)
+        mod = importlib.util.module_from_spec(spec)
+        loader.exec_module(mod)
+        _EMBOSSC = mod.main
+    return _EMBOSSC
+
+
+def _captured(fn):
+    """Run a driver's main with stdout/stderr captured: (return code or None, stderr text, exception key or None)."""
+    import contextlib
+    import io
+    err, out = io.StringIO(), io.StringIO()
+    rc, exc = None, None
+    try:
+        with contextlib.redirect_stderr(err), contextlib.redirect_stdout(out):
+            rc = fn()
+    except SystemExit as ex:
+        rc = ex.code if isinstance(ex.code, int) else 2
+    except Exception as ex:  # noqa: a driver that dies is an observation
+        exc = crash_info(ex)
+    return rc, err.getvalue(), exc
+
+
+def run_drivers(job, base):
+    """The three command line drivers on one module set written to disk:
+    embossc  vs  emboss_front_end (IR to a file) followed by emboss_codegen_cpp (IR from that file)."""
+    from compiler.front_end import emboss_front_end
+    from compiler.back_end.cpp import emboss_codegen_cpp
+    d = os.path.join(base, "".join(c if c.isalnum() else "_" for c in str(job["id"]))[:80])
+    os.makedirs(d, exist_ok=True)
+    for name, text in job["files"].items():
+        fp = os.path.join(d, name)
+        os.makedirs(os.path.dirname(fp), exist_ok=True)
+        with open(fp, "w", encoding="utf-8", newline="") as f:
+            f.write(text)
+    dirs = ["--import-dir", d] + (["--import-dir", REPO] if job.get("shared") else [])
+    name = job["main"]
+    out1 = os.path.join(d, "out_embossc")
+    rc, err, exc = _captured(lambda: _embossc_main()(["embossc", "--color-output", "never", "--output-path", out1] + dirs + [name]))
+    hp = os.path.join(out1, name + ".h")
+    a = {"rc": rc, "stderr": err, "exc": exc, "header": open(hp, encoding="utf-8").read() if os.path.exists(hp) else None}
+    irp, hp2 = os.path.join(d, "ir.json"), os.path.join(d, "split.h")
+    rc1, err1, exc1 = _captured(lambda: emboss_front_end.main(emboss_front_end._parse_command_line(
+        ["emboss_front_end", "--color-output", "never", "--output-file", irp] + dirs + [name])))
+    b = {"rc1": rc1, "rc2": None, "stderr": err1, "exc": exc1, "header": None}
+    if rc1 == 0 and exc1 is None and os.path.exists(irp):
+        rc2, err2, exc2 = _captured(lambda: emboss_codegen_cpp.main(emboss_codegen_cpp._parse_command_line(
+            ["emboss_codegen_cpp", "--color-output", "never", "--input-file", irp, "--output-file", hp2])))
+        b.update(rc2=rc2, stderr=err1 + err2, exc=exc2)
+        b["header"] = open(hp2, encoding="utf-8").read() if os.path.exists(hp2) else None
+    for r in (a, b):
+        h = r.pop("header")
+        r["header_sha"] = hashlib.sha1(h.encode("utf-8", "surrogatepass")).hexdigest() if h is not None else None
+        r["header_len"] = len(h) if h is not None else None
+    return {"id": job["id"], "embossc": a, "split": b}
+
+
 def main(argv):
     job = json.load(open(argv[1], encoding="utf-8"))
+    if job.get("mode") == "drivers":
+        base = job["base"]
+        res = {"hashseed": os.environ.get("PYTHONHASHSEED"), "drivers": [run_drivers(j, base) for j in job["jobs"]]}
+        with open(argv[2], "w", encoding="utf-8") as f:
+            json.dump(res, f)
+        return 0
     want = job.get("want", [])
     res = {"hashseed": os.environ.get("PYTHONHASHSEED"), "runs": []}
     if "lr1" in want:
